@@ -80,7 +80,7 @@ class TailEval(ObjEvaluator):
                 hi = const_int(self.eval(elts[1].upper, env)) if elts[1].upper is not None else None
                 return Sorted([r[slice(lo, hi)] for r in base.rows], base.keys)
             raise AnalysisError("genhkl_base: unsupported subscript of the sorted table (line %d)" % node.lineno)
-        return ObjEvaluator.e_Subscript(self, node, env)
+        return ObjEvaluator.e_Subscript(self, node, env, base)
 
 
 def _bind_params(ev, fn, given):
@@ -318,8 +318,8 @@ def analyse_tests(ctx, mod, short, emit=("shell", "stops")):
                 r = None
             vec.append(r if isinstance(r, bool) else None)
         if any(v is None for v in vec):
-            odd.append((core.unparse(t)[:60], vec))
-            continue
+            raise AnalysisError("%s.genhkl_base: the test `%s` on the running sin(theta)/lambda cannot be evaluated on the regions %s"
+                                % (short, core.unparse(t)[:60], [r_ for r_, v in zip(regions, vec) if v is None]))
         names = {x.id for x in ast.walk(t) if isinstance(x, ast.Name)}
         if vec == [False] * len(vec) or vec == [True] * len(vec):
             continue
